@@ -60,8 +60,10 @@ pub fn add_fixed_and_dependent2(rng: &mut Rng, inst: &mut v1::Instance, regime: 
     let used = used_ids(inst);
     let mut hidden = BTreeSet::new();
     let mut dep_sources = BTreeSet::new();
-    let unused: Vec<u64> = inst.decision_variables.iter().map(|v| v.id).filter(|i| !used.contains(i)).collect();
-    let mut sources: Vec<u64> = inst.decision_variables.iter().map(|v| v.id).filter(|i| used.contains(i)).collect();
+    // variables that are already fixed or dependent (an instance out of a pipeline) are left as they are
+    let already = fixed_or_dependent(inst);
+    let unused: Vec<u64> = inst.decision_variables.iter().map(|v| v.id).filter(|i| !used.contains(i) && !already.contains(i)).collect();
+    let mut sources: Vec<u64> = inst.decision_variables.iter().map(|v| v.id).filter(|i| used.contains(i) && !already.contains(i)).collect();
     let mut plain_unused: Vec<u64> = vec![];
     for id in unused {
         match rng.below(5) {
@@ -100,9 +102,16 @@ pub fn add_fixed_and_dependent2(rng: &mut Rng, inst: &mut v1::Instance, regime: 
             }
         }
     }
+    // everything the state must not give / must give, whoever created it
+    hidden.extend(already);
+    for f in inst.decision_variable_dependency.values() {
+        dep_sources.extend(crate::exact::occurring_ids(f));
+    }
     let dep_sources: BTreeSet<u64> = dep_sources.into_iter().filter(|i| !hidden.contains(i)).collect();
     (hidden, dep_sources)
 }
+
+
 
 impl Property for C05 {
     fn id(&self) -> &'static str {
@@ -121,7 +130,7 @@ impl Property for C05 {
         }
     }
     fn rule(&self) -> &'static str {
-        "each case: a generated valid instance (0-6 variables of all kinds incl. semi-kinds, bounds absent/finite/half-infinite/degenerate/fractional, 0-4 active and 0-3 removed constraints of both equality kinds with metadata, absent functions, extra constraints whose value is exactly +-1e-6*{0,0.5,0.999,1,1.001,2}, unused variables that are fixed (substituted_value) or dependent) and one state chosen from: complete in-bound / omitting unused variables / one value (possibly that of an echoed fixed variable) 2e-7 outside a finite bound end / 0.5e-7 outside / one used variable missing; one state in five also repeats the values of fixed variables. The returned Solution (or Err) is compared with a reference evaluation in exact rationals; feasibility flags are recomputed from the reported values with the stated rule. Non-trivial = instance has >= 1 constraint or a non-constant objective; distinct = fingerprint of (encoded instance, state, scenario)."
+        "each case: a generated valid instance (0-6 variables of all kinds incl. semi-kinds, bounds absent/finite/half-infinite/degenerate/fractional, 0-4 active and 0-3 removed constraints of both equality kinds with metadata, absent functions, extra constraints whose value is exactly +-1e-6*{0,0.5,0.999,1,1.001,2}, unused variables that are fixed (substituted_value) or dependent; one instance in six has first gone through a random pipeline of 1-4 SDK transformations: log_encode + substitute, partial_evaluate, relax / restore, inequality -> equality with slack, as_minimization_problem, penalty method + with_parameters) and one state chosen from: complete in-bound / omitting unused variables / one value (possibly that of an echoed fixed variable) 2e-7 outside a finite bound end / 0.5e-7 outside / one used variable missing; one state in five also repeats the values of fixed variables. The returned Solution (or Err) is compared with a reference evaluation in exact rationals; feasibility flags are recomputed from the reported values with the stated rule. Non-trivial = instance has >= 1 constraint or a non-constant objective; distinct = fingerprint of (encoded instance, state, scenario)."
     }
     fn assumptions(&self) -> Vec<&'static str> {
         vec![
@@ -139,6 +148,17 @@ impl Property for C05 {
         let g = gen_instance(rng, &cfg);
         let mut inst = g.instance;
         add_threshold_constraints(rng, &mut inst, &g.pool);
+        // one case in six: the instance first goes through a pipeline of the SDK's own transformations
+        // (log-encoding + substitution, partial evaluation, relax / restore, slack conversion, penalty
+        // method + instantiation, ...): realistic shapes the plain generator does not produce
+        if rng.chance(1, 6) {
+            let (i2, steps) = pipeline_instance(rng, inst);
+            inst = i2;
+            for st in &steps {
+                mon.facet(&format!("pipeline-step:{st}"));
+            }
+            mon.facet(if steps.is_empty() { "pipeline:no-step-applied" } else { "instance-out-of-an-SDK-pipeline" });
+        }
         let (hidden, dep_sources) = add_fixed_and_dependent2(rng, &mut inst, regime);
         let used = used_ids(&inst);
 
